@@ -49,4 +49,10 @@ CLAIMED = {
         "note": "Trusted: Lean kernel, translator, correspondence harness; roaring/flate2 assumed (hypotheses exercised on every run); Url/serde glue by correspondence.",
         "technique": "Lean 4 proof over regenerated constants (abstract codec hypotheses) + correspondence with codec fact tables",
     },
+    "C08": {
+        "text": "Lean 4 theorems about the encoder + decoder models (headers policy from C11 over regenerated tables, base64url proved a bijection; S/P header codec a stated hypothesis): core lemma — a signature entry assembled by the encoders decodes to exactly (protected header, unprotected header, signing input, signature, payload); compact round trip for every accepted header, every NON-EMPTY payload, every option (detached / attached b64 / attached unencoded under either character set — the character sets are proved dot-free) and every signature; flattened round trip at member level; encoders accept exactly the header sets the shared policy accepts. General serialization, the JSON envelope and the storage-backed signing path (all JwsSignatureOptions, scopes, nonces, cross-method/cross-document rejection with real Ed25519) are tied by correspondence / implementation-side oracle.",
+        "design_ref": "DESIGN.md §7.8",
+        "note": "Trusted: Lean kernel, translator (C11 tables), correspondence harness; serde header codec as hypothesis (exercised on every generated header); JSON envelope and storage path by correspondence / oracle; Ed25519 unproved.",
+        "technique": "Lean 4 proof (encode/decode round trip, base64url bijection) + correspondence + implementation-side oracle for the storage path",
+    },
 }
